@@ -413,75 +413,137 @@ def check(ctx):
     run.floor('C05.enums', 4)
 
 
+def is_getter_call(c: ast.AST) -> bool:
+    """`<helper>.<method>('<key>', ...)`: a read of one key of the wrapped JSON element through the checking helper - the
+    named getters of the reference tree, or any method of the helper whose first argument is the key literal (generic typed
+    getters), except the class-tag assertion."""
+    return isinstance(c, ast.Call) and isinstance(c.func, ast.Attribute) and isinstance(c.func.value, ast.Name) and bool(c.args) and \
+        isinstance(c.args[0], ast.Constant) and isinstance(c.args[0].value, str) and c.func.attr != 'assert_class' and (
+            c.func.attr in GETTERS or ('get' in c.func.attr and 'value' in c.func.attr))
+
+
+def _enum_table(ctx, f: FuncInfo, x: ast.AST) -> bool:
+    """`x` can only be a module-level constant dictionary whose values are all enum members (`Cls.MEMBER`)."""
+    try:
+        consts = ctx.cg.env(f)._table_consts(x)
+    except Exception:       # pylint: disable=broad-except
+        return False
+    if not consts and isinstance(x, ast.Name) and x.id in [a_.arg for a_ in f.params()]:
+        # a parameter: every call site hands in such a table
+        sites = [(g_, c_) for g_ in ctx.prog.all_functions() for c_ in iter_own_nodes(g_.node)
+                 if isinstance(c_, ast.Call) and any(t_ is f for t_ in ctx.cg.env(g_).resolve_call(c_))]
+        if not sites:
+            return False
+        for g_, c_ in sites:
+            a_ = ctx.prog.bind_call(g_.module, c_, f).get(x.id)
+            if a_ is None or not _enum_table(ctx, g_, a_):
+                return False
+        return True
+    return bool(consts) and all(
+        isinstance(d_, ast.Dict) and d_.values and all(
+            isinstance(v_, ast.Attribute) and isinstance(v_.value, ast.Name) and v_.value.id[:1].isupper() and v_.attr.isupper()
+            for v_ in d_.values) for d_, _m in consts)
+
+
 def _verbatim_rule(ctx, jmod, amod):
     """C05.verbatim: what a getter reads from the document reaches the declaration through nothing but the parse functions
     and the ast constructors: no string method, slice, arithmetic, conversion or other call in between (the field rule only
-    looks at WHICH key feeds a field, this rule at what happens to the value on the way)."""
+    looks at WHICH key feeds a field, this rule at what happens to the value on the way).  Helpers of the parser module that
+    the value is handed to are followed (the value must reach their result in the same way); parse functions / ast classes
+    handed in as parameters (template helpers) count like the functions themselves."""
     run, prog = ctx.run, ctx.prog
+    transparent: Dict[tuple, Optional[Tuple[ast.AST, str]]] = {}
+
+    def judge(f: FuncInfo, node: ast.AST, depth: int = 0) -> Optional[Tuple[ast.AST, str]]:
+        """(node, what happens) when the value carried by `node` is changed on its way, None when it is handed on verbatim."""
+        child, p = node, prog.parent(node)
+        if isinstance(ctx.flow.enclosing_stmt(node), ast.Raise):
+            return None          # quoted in an error message
+        while p is not None and not isinstance(p, ast.stmt):
+            bad = None
+            if isinstance(p, ast.Call):
+                if p.func is child or any(x is child for x in ast.walk(p.func)):
+                    bad = f'changed by `.{getattr(p.func, "attr", "?")}(...)`'
+                else:
+                    sym = prog.resolve_expr_symbol(f.module, p.func) if isinstance(p.func, (ast.Name, ast.Attribute)) else None
+                    ok_callee = (isinstance(sym, ClassInfo) and sym.module is amod) or \
+                        (isinstance(sym, FuncInfo) and sym.module is jmod and sym.name.startswith('parse_')) or \
+                        (isinstance(p.func, ast.Attribute) and p.func.attr == 'append')
+                    if not ok_callee and sym is None:
+                        cs = ctx.cg.env(f).resolve_call(p)
+                        fs = [c_ for c_ in cs if isinstance(c_, FuncInfo)]
+                        ctors = [c_ for c_ in cs if isinstance(c_, tuple) and c_[0] == 'ctor']
+                        ok_callee = bool(fs or ctors) and all(
+                            (c_.module is jmod and c_.name.startswith('parse_')) or c_.name in ('__init__', '__post_init__')
+                            for c_ in fs) and all(c_[1].module is amod for c_ in ctors)
+                    if ok_callee:
+                        return None      # from here on it is a declaration (or a validated value object), not the raw value
+                    if getattr(p.func, 'id', '') in VERBATIM_OK:
+                        return None
+                    if isinstance(sym, FuncInfo) and sym.module is jmod and depth < 4:
+                        b_ = prog.bind_call(f.module, p)
+                        pname = next((k_ for k_, v_ in b_.items() if v_ is child or any(x is child for x in ast.walk(v_))), None)
+                        if pname is not None:
+                            key_ = (sym.fq, pname)
+                            if key_ not in transparent:
+                                transparent[key_] = None     # optimistic for recursion
+                                for u in iter_own_nodes(sym.node):
+                                    if isinstance(u, ast.Name) and u.id == pname and isinstance(u.ctx, ast.Load):
+                                        r_ = judge(sym, u, depth + 1)
+                                        if r_ is not None:
+                                            transparent[key_] = r_
+                                            break
+                            if transparent[key_] is None:
+                                return None
+                            return transparent[key_]
+                    bad = f'passed through `{ast.unparse(p.func)[:40]}(...)`'
+            elif isinstance(p, ast.Subscript) and child is p.slice and _enum_table(ctx, f, p.value):
+                return None      # the value selects a member of a constant keyword table (C05.enums judges the table)
+            elif isinstance(p, (ast.Subscript, ast.BinOp, ast.JoinedStr, ast.FormattedValue, ast.UnaryOp, ast.Compare)):
+                if not (isinstance(p, ast.Compare) or (isinstance(p, ast.UnaryOp) and isinstance(p.op, ast.Not))):
+                    bad = f'used in `{ast.unparse(p)[:50]}`'
+                else:
+                    return None      # a test on the value, not the value
+            elif isinstance(p, ast.IfExp) and child is p.test:
+                return None
+            if bad:
+                return p, bad
+            child, p = p, prog.parent(p)
+        if isinstance(p, (ast.Assign, ast.AnnAssign)) and depth < 6:
+            tg = p.targets[0] if isinstance(p, ast.Assign) else p.target
+            if isinstance(tg, ast.Name) and p.value is not None and any(x is node for x in ast.walk(p.value)):
+                for u in iter_own_nodes(f.node):
+                    if isinstance(u, ast.Name) and u.id == tg.id and isinstance(u.ctx, ast.Load):
+                        r_ = judge(f, u, depth + 1)
+                        if r_ is not None:
+                            return r_
+        elif isinstance(p, (ast.For,)) and child is p.iter and isinstance(p.target, ast.Name) and depth < 6:
+            for u in iter_own_nodes(f.node):
+                if isinstance(u, ast.Name) and u.id == p.target.id and isinstance(u.ctx, ast.Load):
+                    r_ = judge(f, u, depth + 1)
+                    if r_ is not None:
+                        return r_
+        return None
+
     n_sites = 0
     for f in jmod.functions.values():
         if f.cls is not None:
             continue
-
-        def judge(node: ast.AST, origin: ast.Call, depth: int = 0):
-            # climb from `node` (which carries the JSON value) to its statement
-            child, p = node, prog.parent(node)
-            if isinstance(ctx.flow.enclosing_stmt(node), ast.Raise):
-                return          # quoted in an error message
-            while p is not None and not isinstance(p, ast.stmt):
-                bad = None
-                if isinstance(p, ast.Call):
-                    if p.func is child or any(x is child for x in ast.walk(p.func)):
-                        bad = f'changed by `.{getattr(p.func, "attr", "?")}(...)`'
-                    else:
-                        sym = prog.resolve_expr_symbol(f.module, p.func)
-                        ok_callee = (isinstance(sym, ClassInfo) and sym.module is amod) or \
-                            (isinstance(sym, FuncInfo) and sym.module is jmod and sym.name.startswith('parse_')) or \
-                            (isinstance(p.func, ast.Attribute) and p.func.attr == 'append')
-                        if not ok_callee and sym is None:
-                            # a parse function taken out of a dispatch table
-                            cs = [c_ for c_ in ctx.cg.env(f).resolve_call(p) if isinstance(c_, FuncInfo)]
-                            ok_callee = bool(cs) and all(c_.module is jmod and c_.name.startswith('parse_') for c_ in cs)
-                        if ok_callee:
-                            return      # from here on it is a declaration (or a validated value object), not the raw value
-                        if getattr(p.func, 'id', '') in VERBATIM_OK:
-                            return
-                        bad = f'passed through `{ast.unparse(p.func)[:40]}(...)`'
-                elif isinstance(p, (ast.Subscript, ast.BinOp, ast.JoinedStr, ast.FormattedValue, ast.UnaryOp, ast.Compare)):
-                    if not (isinstance(p, ast.Compare) or (isinstance(p, ast.UnaryOp) and isinstance(p.op, ast.Not))):
-                        bad = f'used in `{ast.unparse(p)[:50]}`'
-                    else:
-                        return      # a test on the value, not the value
-                elif isinstance(p, ast.IfExp) and child is p.test:
-                    return
-                if bad:
-                    key = origin.args[0].value if origin.args and isinstance(origin.args[0], ast.Constant) else '?'
-                    run.violation('C05.verbatim', f.module.name, f.qualname, p,
-                                  f"the value read from JSON key '{key}' is {bad} before it is stored: the declaration no longer "
-                                  f"carries what the document says", node=p)
-                    return
-                child, p = p, prog.parent(p)
-            if isinstance(p, (ast.Assign, ast.AnnAssign)) and depth < 4:
-                tg = p.targets[0] if isinstance(p, ast.Assign) else p.target
-                if isinstance(tg, ast.Name) and p.value is not None and any(x is node for x in ast.walk(p.value)):
-                    for u in iter_own_nodes(f.node):
-                        if isinstance(u, ast.Name) and u.id == tg.id and isinstance(u.ctx, ast.Load):
-                            judge(u, origin, depth + 1)
-            elif isinstance(p, (ast.For,)) and child is p.iter and isinstance(p.target, ast.Name) and depth < 4:
-                for u in iter_own_nodes(f.node):
-                    if isinstance(u, ast.Name) and u.id == p.target.id and isinstance(u.ctx, ast.Load):
-                        judge(u, origin, depth + 1)
-
         for c in iter_own_nodes(f.node):
-            if isinstance(c, ast.Call) and isinstance(c.func, ast.Attribute) and c.func.attr in GETTERS:
+            if is_getter_call(c):
                 n_sites += 1
-                before = len(run.violations) if hasattr(run, 'violations') else 0
-                judge(c, c)
-                run.holds('C05.verbatim', f.module.name, f.qualname, c, 'getter result examined on its way into the declaration',
-                          node=c, nontrivial=False)
+                r_ = judge(f, c)
+                if r_ is not None:
+                    key = c.args[0].value
+                    run.violation('C05.verbatim', f.module.name, f.qualname, r_[0],
+                                  f"the value read from JSON key '{key}' is {r_[1]} before it is stored: the declaration no longer "
+                                  f"carries what the document says", node=r_[0])
+                else:
+                    run.holds('C05.verbatim', f.module.name, f.qualname, c, 'getter result examined on its way into the declaration',
+                              node=c, nontrivial=False)
     run.stats['getter_sites'] = n_sites
-    if n_sites < 50:
-        run.error('C05.verbatim', jmod.name, '-', 'getter sites', f'only {n_sites} getter calls found (55 confirmed)')
+    if n_sites < 18:
+        run.error('C05.verbatim', jmod.name, '-', 'getter sites', f'only {n_sites} getter calls found (55 on the reference tree)')
 
 
 def _class_chain(fn: FuncInfo, var: Optional[str]):
@@ -594,7 +656,7 @@ def _field_rule(ctx, fn: FuncInfo, call: ast.Call, cls: ClassInfo, fields: List[
                     return out
                 return json_parts(d, depth + 1)
             return []
-        if isinstance(e, ast.Call) and isinstance(e.func, ast.Attribute) and e.func.attr in GETTERS:
+        if is_getter_call(e):
             return [e]
         out = []
         for c in ast.iter_child_nodes(e):
@@ -676,14 +738,13 @@ def _field_rule(ctx, fn: FuncInfo, call: ast.Call, cls: ClassInfo, fields: List[
                                   f'{cls.name}.{fld} is a slice of the parsed list: items are dropped', node=d)
                 elif isinstance(d, ast.ListComp):
                     g = d.generators
-                    ok = len(g) == 1 and not g[0].ifs and isinstance(g[0].iter, ast.Call) and \
-                        isinstance(g[0].iter.func, ast.Attribute) and g[0].iter.func.attr == 'get_list_value' and \
+                    ok = len(g) == 1 and not g[0].ifs and is_getter_call(g[0].iter) and \
                         isinstance(d.elt, ast.Call) and len(d.elt.args) >= 1 and isinstance(d.elt.args[0], ast.Name) and \
                         d.elt.args[0].id == getattr(g[0].target, 'id', None)
                     run.add('C05.order', fn.module.name, fn.qualname, d, ok,
                             'order- and cardinality-preserving map of the JSON list' if ok else
                             f'`{ast.unparse(d)[:70]}` filters, re-orders or does not map every item of the JSON list', node=d)
-                elif isinstance(d, ast.Call) and isinstance(d.func, ast.Attribute) and d.func.attr == 'get_list_value':
+                elif is_getter_call(d):
                     run.holds('C05.order', fn.module.name, fn.qualname, d, 'the JSON list is kept as it is', node=d)
                 elif isinstance(d, ast.List) and not d.elts and fn.name == 'parse_types':
                     _types_loop(ctx, fn, e.id if isinstance(e, ast.Name) else None)
